@@ -98,6 +98,21 @@ def run(tier, seed, rng):
                                          {'move': None, 'body': ('elem', ('leaf', ('int', 1, False, None, 0)))}])}, 90000)
     d8.add_derive(0, ('pkt', 0, {0: b'ab', 1: 7}), seed=1, maxcuts=0, flips=0)
     groups.append(d8)
+    # ---- an offset table: two strings placed by absolute positions held in earlier fields, in and out of declaration order,
+    # with a hole, abutting (the one packed later ends exactly where the other begins) and nested in a reference
+    tfields = [{'move': None, 'body': ('elem', ('leaf', ('int', 1, False, None, 0)))},
+               {'move': None, 'body': ('elem', ('leaf', ('int', 1, False, None, 0)))},
+               {'move': (('field', 0), 'RInner', False, 'at'), 'body': ('elem', ('leaf', ('dsized', ('lit', 4), 'const', b'')))},
+               {'move': (('field', 1), 'RInner', False, 'at'), 'body': ('elem', ('leaf', ('dsized', ('lit', 4), 'const', b'')))}]
+    ttable = {0: dict(end=None, align=None, sbl=None, gp=True, gu=True, vec=True, ann=True, fields=tfields),
+              1: dict(end=None, align=None, sbl=None, gp=False, gu=False, vec=True, ann=True,
+                      fields=[{'move': None, 'body': ('elem', ('leaf', ('int', 2, False, None, 0)))}, {'move': None, 'body': ('elem', ('refpkt', 0, {}))}])}
+    tg = pktcases.Group(ttable, 91000)
+    for oa, ob in ((2, 6), (6, 2), (7, 2), (2, 7), (10, 6), (6, 10), (3, 12)):
+        v = ('pkt', 0, {0: oa, 1: ob, 2: b'AAAA', 3: b'BBBB'})
+        tg.add_derive(0, v, seed=1, maxcuts=0, flips=0)
+        tg.add_derive(1, ('pkt', 1, {0: 515, 1: v}), seed=1, maxcuts=0, flips=0)
+    groups.append(tg)
     records, disagreements = pktcases.run_groups(groups, 'c02')
     failures = []
     dist = dict(values=0, packed=0, reparsed_equal=0, not_serializable=0, reference_encoding_checked=0, with_positioning=0, census=0, in_sequential_theorem=0, in_extended_theorem=0)
@@ -106,6 +121,9 @@ def run(tier, seed, rng):
         if r['kind'] == 'pack':
             dist['values'] += 1
             table = pktprops.table_of(groups, r['group'])
+            if 'ok' not in r['outcome'] and r['group'] == 91000:
+                failures.append(dict(kind='oracle', sig='pack-consistent', what=f"an offset table whose two strings do not overlap could not be serialized: {r['outcome']}",
+                                     classes=pktprops.class_source(groups, r['group']), cls=decl.cname(r['c']), value=decl.py_value(r['value'])))
             if 'ok' not in r['outcome']:
                 dist['not_serializable'] += 1
                 positioned = pktprops.has_feature(table, lambda k, x: k == 'move' or (k == 'class' and x.get('align') is not None)
